@@ -71,6 +71,23 @@ Proof.
   exists st0, st. repeat split; auto; try apply Hwf. rewrite (tree_get_spec M HM st k Hwf Hk). apply Habs.
 Qed.
 
+(* page accounting, for every history (in-memory or new file) and every page size up to 1 MiB - 8: the page ids handed
+   out are never live twice -- the pages of the tree and the free list are duplicate-free and together are exactly
+   the ids 1 .. nextPage-1 (nothing leaks, nothing is both live and free) -- and the statistics are exact:
+   NumLeafKeys = number of leaf entries (placeholders included), NumPagesFree = length of the free list *)
+Theorem C10_pages_unique : forall M ps ops, (4 <= M)%nat -> ps <= 1048568 -> Forall op_ok ops ->
+  exists st0 st, tree_new_mem M ps = Some st0 /\ run M ps ops st0 = Some st /\
+    NoDup (pids (root st) ++ freeList (al st)) /\
+    (forall p, In p (pids (root st) ++ freeList (al st)) <-> 1 <= p < nextPage (al st)) /\
+    stat_leaf_keys st = Z.of_nat (length (entries (root st))) /\
+    stat_pages_free st = Z.of_nat (length (freeList (al st))).
+Proof.
+  intros M ps ops HM Hps Hok.
+  destruct (new_mem_wf M HM ps Hps) as (st0 & H0 & Hwf0).
+  destruct (history_wf M HM ps ops Hps st0 Hwf0 Hok) as (st & Hr & [_ Hwa]).
+  exists st0, st. split; [exact H0|]. split; [exact Hr|]. exact (wfa_pages M HM ps st Hwa).
+Qed.
+
 (* a concrete non-trivial state meeting the hypotheses: page size 80 (M = 4), 20 inserts (17 splits, 3 root splits),
    overwrites, a DeleteBelow that frees pages, re-inserts that recycle them *)
 Definition c10_ops : list op :=
@@ -99,4 +116,5 @@ Print Assumptions C10_history.
 Print Assumptions C10_set.
 Print Assumptions C10_delete_below.
 Print Assumptions C10_iterate.
+Print Assumptions C10_pages_unique.
 Print Assumptions C10_nonvacuous.
